@@ -30,7 +30,7 @@ RUNNER_SIM = {"n": 4, "optional": [2, 3]}
 KEY_H7 = "runner:applied-on-nil-state-cancel"
 KEY_H19 = "runner:older-binary-admitted-with-pending-newer-migration"
 KEY_H15 = "blocktx-migration:rerun-overwrites-migrated-block"
-KEY_H20 = "blocktx-migration:empty-block-left-without-blob"
+KEY_H20 = "blocktx-migration:empty-block-left-without-blob"  # + ":uninterrupted-leading-range" | ":after-crash" | ":after-cancel" | ":after-fail"
 
 
 def _keys(res):
@@ -118,7 +118,7 @@ def blocktx_part(ctx, binary, thorough):
     ctx.absorb(res, "migration", "TestBlockTxReplay")
     ctx.coverage["blocktx_behaviours"] = len(behaviours)
     ctx.coverage["blocktx_steps_replayed"] = res.get("steps", 0)
-    asis = [s for s, k in (("FixH15", KEY_H15), ("FixH20", KEY_H20)) if k in _keys(res)]
+    asis = [s for s, k in (("FixH15", KEY_H15), ("FixH20", KEY_H20)) if any(x.startswith(k) for x in _keys(res))]
     ctx.coverage["blocktx_switches_as_in_code"] = {"FixH15": "FixH15" not in asis, "FixH20": "FixH20" not in asis}
     if asis:
         b2 = gen(asis, 500)
@@ -127,7 +127,7 @@ def blocktx_part(ctx, binary, thorough):
         # final accessor sweep reports the damage under the same specific keys
         ctx.absorb(res2, "migration", "TestBlockTxReplay")
         ctx.coverage["blocktx_behaviours_faithful_model"] = len(b2)
-        other = _keys(res2) - {KEY_H15, KEY_H20}
+        other = {x for x in _keys(res2) if not (x == KEY_H15 or x.startswith(KEY_H20))}
         ctx.coverage["blocktx_faithful_model_conforms"] = not other
 
 
@@ -145,6 +145,9 @@ def shapes(seed, thorough):
     t = rand(27)
     t[0:12] = [0] * 12
     out.append({"name": "leading-empty-27", "txs": t})
+    t = rand(58)
+    t[40:58] = [0] * 18
+    out.append({"name": "trailing-empty-58", "txs": t})
     out.append({"name": "short-7", "txs": rand(7)})
     out.append({"name": "pruned-30", "txs": rand(30), "pruneTo": 13})
     if thorough:
@@ -180,7 +183,24 @@ def run(ctx):
     ctx.assumptions += [
         "a single Batch.Write / Put / DeleteRange is atomic and durable (C15 examines the backends)",
         "a crash is modelled as: the k-th durable mutation is applied and no later operation reaches the store",
+        "mock migrations are honest: they return (nil, nil) exactly when their own work is complete",
+        "batches of the block-transactions migration never reach the 96 MB hand-over threshold in the replayed "
+        "databases (the specification covers early hand-over, TLC checks it, the binding does not force it)",
+        "a pruned database always has the block-transactions migration applied (pruning is only reachable after it)",
     ]
     return ctx.finish(
         "model_checking",
-        "TBD")
+        "exhaustive TLC on the repaired designs of Migration.tla (registry M,O,M / M,O,O,M, older binary, every "
+        "Migrate return combination, fail/crash/cancel at every durable mutation, <= 4 restarts) and "
+        "BlockTxMigration.tla (EVERY placement of empty blocks over 6-8 blocks, any completion order of the "
+        "ingestors, crashes and a cancellation at any point); each Fix* switch set as in the code must violate its "
+        "property. Cases for the binding: (a) TLC -simulate behaviours of the runner model (schema-uniform, 6 process "
+        "starts each, >= 1 admitted run) stepped through the real MigrationRunner; (b) TLC -simulate schedules "
+        "(random chain shape incl. empty ranges, 23/35/58 blocks, random completion order, <= 2 crashes, <= 1 "
+        "cancellation) forced onto the real blocktransactions.Migrator by gating its ingestors, compared after every "
+        "step, every behaviour ends with the migration applied and a full accessor sweep; (c) for every seeded valid "
+        "chain in the previous layout: crash / cancel / write-failure at EVERY durable mutation of the full registry "
+        "(blocktransactions + statedifflength), cancellation at every pipeline stage, (thorough) every second "
+        "crash, restart, final database byte-identical to the uninterrupted run and every block read back through "
+        "the current accessors; non-trivial = the interrupt fired and the restart had work left or had to recognise "
+        "completed work")
